@@ -2,7 +2,10 @@
 Proof: props/C17.v over model/Geom.v.
 Tie: correspondence of the extracted model (model/GeomRun.v) with real shapes built through
 pptx.Presentation(): histories of connector end-point assignments, histories of additions to
-groups nested to depth 4 (5 in thorough), freeform builders with fractional / negative /
+groups nested to depth 4 (5 in thorough) interleaved with assignments of left / top / width /
+height to EXISTING members (shapes and groups, through the public API) and with start states of
+other producers (nested groups whose a:off / a:ext differ from their a:chOff / a:chExt, written
+with lxml, schema-validated, saved and re-opened), freeform builders with fractional / negative /
 repeated vertices, several contours and non-uniform int and float scales.
 Oracle: the property's own statement evaluated on what the implementation reports
 (shape.left/top/width/height, begin/end, a:chOff/a:chExt, a:path w/h, a:pt x/y), independent
@@ -33,8 +36,15 @@ ASSUME = [
     "range); an assignment refused by range validation is modelled exactly (partial writes stay) and its non-atomicity is proved as "
     "C17_conn_set_failure_not_atomic_refuted / _swaps_refuted; the oracle reports it under the signature conn-set-raises-partial",
     "groups: members are added through add_shape / add_textbox / add_picture / add_connector / add_group_shape() / "
-    "build_freeform().convert_to_shape(); add_chart and add_ole_object are not exercised (same _recalculate_extents call in the source); "
-    "changing the position of an existing member (not an addition) is outside the property",
+    "build_freeform().convert_to_shape(); add_chart and add_ole_object are not exercised (same _recalculate_extents call in the source)",
+    "groups: an existing member (shape or group) is moved / resized by assigning left / top / width / height through the public API; "
+    "group frames of other producers (a:off / a:ext different from a:chOff / a:chExt) are written with lxml into the generated deck, "
+    "kept within the schema ranges, the slide part is validated against pml.xsd (libxml2) at every re-open. The property speaks of "
+    "additions: after an addition every group on its path is the bounding box of its members' own left/top/width/height (a nested group "
+    "counts with its own a:off / a:ext, never with its members or its a:chOff / a:chExt) and everything off the path is unchanged; an "
+    "assignment recalculates nothing (modelled so, theorems C17_group_assign_*), so groups that were assigned to, or contain an assigned "
+    "member, stay as they are until an addition at or below them (the dirty set of C17_group_history_assign); removing or re-ordering "
+    "members, rotation and flips of groups are outside",
     "groups: every add_* method recalculates the receiving group and its ancestors (add_group_shape() and convert_to_shape() since "
     "their repair); should either stop doing so the oracle reports group-stale-after-add-group-shape / group-stale-after-freeform",
     "groups: the model's Leaf carries only the xfrm numbers; every member kind reads its extents from the same BaseShapeElement.x/y/cx/cy",
@@ -206,17 +216,39 @@ def impl_conn(f, obs):
     return "|".join(out)
 
 
+_FLD = {"l": "left", "t": "top", "w": "width", "h": "height"}
+ADD_KINDS = ("sp", "tb", "pic", "cxn", "ff", "grp")
+
+
 def p_gcmd(s):
     t = s.split(" ")
+    if t == ["reopen"]:
+        return ("reopen", [])
     if len(t) == 2 and t[0] == "grp":
         p = p_path(t[1])
         return None if p is None else ("grp", p)
+    if len(t) == 4 and t[0] == "set":
+        p, v = p_path(t[1]), pZ(t[3])
+        if p is None or v is None or t[2] not in _FLD:
+            return None
+        return ("set", p, t[2], v)
     if len(t) == 6:
         p = p_path(t[1])
         nums = [pZ(x) for x in t[2:]]
         if p is None or None in nums or t[0] not in ("sp", "tb", "pic", "cxn", "ff"):
             return None
         return (t[0], p) + tuple(nums)
+    if len(t) == 10 and t[0] == "xf":
+        p = p_path(t[1])
+        nums = [pZ(x) for x in t[2:]]
+        if p is None or None in nums:
+            return None
+        # the rewritten part must stay schema-valid: a:off / a:chOff are ST_Coordinate, a:ext / a:chExt ST_PositiveCoordinate
+        for i, v in enumerate(nums):
+            lo = COORD_LO if i in (0, 1, 4, 5) else 0
+            if not lo <= v <= COORD_HI:
+                return None
+        return ("xf", p) + tuple(nums)
     return None
 
 
@@ -246,6 +278,43 @@ def show_tree(t):
 
 
 _SHAPES = None
+_XSD = None
+_NSA = "{http://schemas.openxmlformats.org/drawingml/2006/main}"
+
+
+def pml_schema():
+    """libxml2 schema of PresentationML (ISO/IEC 29500-4 transitional, shipped in the source tree)"""
+    global _XSD
+    if _XSD is None:
+        import os
+        from lxml import etree
+        from corr.harness import REPO
+        _XSD = etree.XMLSchema(etree.parse(os.path.join(REPO, "spec/ISO-IEC-29500-4/xsd/pml.xsd")))
+    return _XSD
+
+
+def foreign_xfrm(grpSp, nums):
+    """The a:xfrm of a p:grpSp as another producer writes it: plain lxml, no python-pptx setter involved."""
+    xfrm = grpSp.find("{http://schemas.openxmlformats.org/presentationml/2006/main}grpSpPr").find(_NSA + "xfrm")
+    for tag, names, vals in (("off", ("x", "y"), nums[0:2]), ("ext", ("cx", "cy"), nums[2:4]),
+                             ("chOff", ("x", "y"), nums[4:6]), ("chExt", ("cx", "cy"), nums[6:8])):
+        el = xfrm.find(_NSA + tag)
+        for n, v in zip(names, vals):
+            el.set(n, str(v))
+
+
+def reopen(prs):
+    """save, check the slide part against the schema, load: what is judged afterwards is a document from a file"""
+    from lxml import etree
+    from pptx import Presentation
+    buf = io.BytesIO()
+    prs.save(buf)
+    prs2 = Presentation(io.BytesIO(buf.getvalue()))
+    slide = prs2.slides[0]
+    xsd = pml_schema()
+    if not xsd.validate(etree.fromstring(etree.tostring(slide._element))):
+        raise AssertionError("driver: slide part not schema-valid: %s" % str(xsd.error_log)[:300])
+    return prs2, slide.shapes
 
 
 def impl_grp(f, obs):
@@ -257,20 +326,44 @@ def impl_grp(f, obs):
     cmds = [p_gcmd(s) for s in f]
     if None in cmds:
         return "badcase"
+    prs = deck().prs
     top = deck().fresh()
     out = []
+
+    def group_at(path):
+        cur = top
+        for i in path:
+            lst = list(cur)
+            if i >= len(lst) or not isinstance(lst[i], GroupShape):
+                raise IndexError("driver: path does not lead to a group")
+            cur = lst[i].shapes
+        return cur
+
+    def member_at(path):
+        if not path:
+            raise IndexError("driver: the slide has no frame")
+        lst = list(group_at(path[:-1]))
+        if path[-1] >= len(lst):
+            raise IndexError("driver: no member at that path")
+        return lst[path[-1]]
+
     for n, cmd in enumerate(cmds):
         kind, path = cmd[0], cmd[1]
         try:
-            cur = top
-            for i in path:
-                lst = list(cur)
-                if i >= len(lst) or not isinstance(lst[i], GroupShape):
+            if kind == "reopen":
+                prs, top = reopen(prs)
+            elif kind == "set":
+                # the public API on an EXISTING member: shape.left / top / width / height = v
+                setattr(member_at(path), _FLD[cmd[2]], cmd[3])
+            elif kind == "xf":
+                m = member_at(path)
+                if not isinstance(m, GroupShape):
                     raise IndexError("driver: path does not lead to a group")
-                cur = lst[i].shapes
-            if kind == "grp":
-                cur.add_group_shape()
+                foreign_xfrm(m._element, cmd[2:])
+            elif kind == "grp":
+                group_at(path).add_group_shape()
             else:
+                cur = group_at(path)
                 a, b, c, d = cmd[2:]
                 if kind == "sp":
                     cur.add_shape(_SHAPES[n % 4], a, b, c, d)
@@ -288,6 +381,10 @@ def impl_grp(f, obs):
                     fb = cur.build_freeform(0, 0, 1)
                     fb.add_line_segments([(c, d)])
                     fb.convert_to_shape(a, b)
+        except AssertionError as e:
+            out.append("err:schema-invalid")
+            obs.append((cmd, None, str(e)))
+            break
         except Exception as e:  # noqa
             out.append("err:" + exc_name(e))
             obs.append((cmd, None))
@@ -454,23 +551,103 @@ def stale_groups(tree, prefix=()):
     return out
 
 
+def node_at(tree, path):
+    """(kind, nums, kids) at a path of member indices in a walk() tree; the slide itself is ("S", None, tree)"""
+    node = ("S", None, tree)
+    for i in path:
+        node = node[2][i]
+    return node
+
+
+def off_path_changes(prev, now, path, depth=0):
+    """An addition at `path` (the receiving group; () is the slide): everything that is not a group on the path must read
+    as before, the new member is the last one of the receiving group.  Returns descriptions of what differs."""
+    bad = []
+    if depth == len(path):
+        if now[:-1] != prev or len(now) != len(prev) + 1:
+            bad.append("members of the receiving group at %r changed: %s -> %s" % (list(path), show_tree(prev)[:200], show_tree(now[:-1])[:200]))
+        return bad
+    if len(now) != len(prev):
+        return ["number of members at depth %d changed" % depth]
+    for i, (a, b) in enumerate(zip(prev, now)):
+        if i == path[depth]:
+            if a[0] != "G" or b[0] != "G":
+                bad.append("member %d on the path is not a group" % i)
+            else:
+                bad += off_path_changes(a[2], b[2], path, depth + 1)
+        elif a != b:
+            bad.append("member %r off the path changed: %s -> %s" % (list(path[:depth]) + [i], show_tree([a])[:200], show_tree([b])[:200]))
+    return bad
+
+
 def oracle_grp(ck, case, out, obs):
+    """The group sentence of the property, judged on what the implementation reports through the public proxies.
+    After an ADDITION at a path: every group on the path, from the receiving group up to the top-level group, has
+    (left, top, width, height) and (chOff, chExt) equal to the bounding box of its members, each member counted with its
+    own left / top / width / height (a nested group with its own frame, whatever its members or its child frame say);
+    every shape and group off the path reads as before.  As long as the history consists of additions only this is the
+    same as: every group of the slide, recursively, is the bounding box of its members, which is then checked too.
+    Assignments to existing members, foreign frames and re-opens are not additions: nothing is demanded of them here
+    (the correspondence with the model covers them)."""
     before = {}
-    for cmd, tree in obs:
+    prev = []
+    pure = True          # only additions so far
+    for o in obs:
+        cmd, tree = o[0], o[1]
         if tree is None:
+            if len(o) > 2:
+                ck.violation("group-deck-not-schema-valid", "after %r the saved slide part is not schema-valid: %s" % (list(cmd), o[2]),
+                             {"entry_point": "Presentation.save", "input": list(case), "impl_outcome": out, "failing_step": list(cmd)})
             break
-        now = stale_groups(tree)
-        for path, (nums, b) in now.items():
-            if path in before and before[path] == (nums, b):
-                continue  # already attributed to the addition after which it appeared
-            kind = cmd[0]
-            sig = {"grp": "group-stale-after-add-group-shape", "ff": "group-stale-after-freeform"}.get(kind, "group-extents")
-            ck.violation(sig, "after adding a %s member at group path %r the group at path %r has off/ext/chOff/chExt %r but the "
-                         "bounding box of its members is %r" % (kind, cmd[1], list(path), nums, b),
-                         {"entry_point": {"grp": "GroupShapes.add_group_shape", "ff": "FreeformBuilder.convert_to_shape"}.get(
-                             kind, "GroupShapes.add_*/CT_GroupShape.recalculate_extents"),
-                          "input": list(case), "impl_outcome": out, "failing_step": list(cmd)})
-        before = now
+        kind = cmd[0]
+        if kind in ("set", "xf", "reopen"):
+            pure = False
+            prev = tree
+            continue
+        path = tuple(cmd[1])
+        ep = {"grp": "GroupShapes.add_group_shape", "ff": "FreeformBuilder.convert_to_shape"}.get(
+            kind, "GroupShapes.add_*/CT_GroupShape.recalculate_extents")
+        sig = {"grp": "group-stale-after-add-group-shape", "ff": "group-stale-after-freeform"}.get(kind, "group-extents")
+        for k in range(len(path), 0, -1):
+            _, nums, kids = node_at(tree, path[:k])
+            b = bbox(kids)
+            if tuple(nums) != b + b:
+                ck.violation(sig, "after adding a %s member at group path %r the group at path %r (on the path of the addition) has "
+                             "off/ext/chOff/chExt %r but the bounding box of its members' left/top/width/height is %r"
+                             % (kind, list(path), list(path[:k]), tuple(nums), b),
+                             {"entry_point": ep, "input": list(case), "impl_outcome": out, "failing_step": list(cmd)})
+                break
+        diff = off_path_changes(prev, tree, path)
+        if diff:
+            ck.violation("group-add-changes-off-path", "adding a %s member at group path %r changed what is not on its path: %s"
+                         % (kind, list(path), "; ".join(diff[:2])),
+                         {"entry_point": ep, "input": list(case), "impl_outcome": out, "failing_step": list(cmd)})
+        if pure:
+            now = stale_groups(tree)
+            for gp, (nums, b) in now.items():
+                if gp in before and before[gp] == (nums, b):
+                    continue  # already attributed to the addition after which it appeared
+                ck.violation(sig, "after adding a %s member at group path %r the group at path %r has off/ext/chOff/chExt %r but the "
+                             "bounding box of its members is %r" % (kind, list(path), list(gp), nums, b),
+                             {"entry_point": ep, "input": list(case), "impl_outcome": out, "failing_step": list(cmd)})
+            before = now
+        prev = tree
+
+
+def count_settling_adds(obs):
+    """additions whose path holds a member group whose frame differs from its child frame (moved / scaled as a whole):
+    the situations in which the box of a nested group and the composite of its members are different things"""
+    n = 0
+    for o in obs:
+        cmd, tree = o[0], o[1]
+        if tree is None or cmd[0] not in ADD_KINDS:
+            continue
+        for k in range(len(cmd[1]), 0, -1):
+            kids = node_at(tree, cmd[1][:k])[2]
+            if any(kd[0] == "G" and tuple(kd[1][:4]) != tuple(kd[1][4:]) for kd in kids):
+                n += 1
+                break
+    return n
 
 
 def oracle_ff(ck, case, out, o):
@@ -589,6 +766,7 @@ def gen_conn(tier, rng):
 def gen_grp(tier, rng):
     cases = []
     maxdepth = 4 if tier == "quick" else 5
+    KINDS = ("sp", "tb", "pic", "cxn", "ff", "grp", "grp")
 
     def coord():
         r = rng.random()
@@ -606,24 +784,25 @@ def gen_grp(tier, rng):
             return rng.randint(1, 30)
         return rng.randint(1, 4 * 10 ** 6)
 
-    def history(nops, extreme):
-        groups = [()]          # paths of groups; () is the slide
-        count = {(): 0}
-        ops = []
-        for _ in range(nops):
-            # prefer deep groups so that depth 4 is reached
-            path = max(rng.sample(groups, min(len(groups), 2)), key=len) if rng.random() < 0.6 else rng.choice(groups)
-            kind = rng.choice(("sp", "tb", "pic", "cxn", "ff", "grp", "grp"))
+    def ptxt(path):
+        return ".".join(map(str, path)) if path else "-"
+
+    class Hist:
+        """the operations so far and what exists: paths of groups (() is the slide), member counts, paths of members"""
+
+        def __init__(self):
+            self.groups, self.count, self.members, self.ops = [()], {(): 0}, [], []
+
+        def add(self, path, kind, extreme=False):
             if kind == "grp" and len(path) >= maxdepth:
                 kind = "sp"
-            ptxt = ".".join(map(str, path)) if path else "-"
+            newp = path + (self.count[path],)
             if kind == "grp":
-                ops.append("grp " + ptxt)
-                newp = path + (count[path],)
-                groups.append(newp)
-                count[newp] = 0
+                self.ops.append("grp " + ptxt(path))
+                self.groups.append(newp)
+                self.count[newp] = 0
             elif kind == "cxn":
-                ops.append("cxn %s %d %d %d %d" % (ptxt, coord(), coord(), coord(), coord()))
+                self.ops.append("cxn %s %d %d %d %d" % (ptxt(path), coord(), coord(), coord(), coord()))
             else:
                 w, h = size(), size()
                 if extreme and rng.random() < 0.15:
@@ -631,9 +810,102 @@ def gen_grp(tier, rng):
                 x, y = coord(), coord()
                 if extreme and rng.random() < 0.15:
                     x = rng.choice((COORD_LO, COORD_LO - 1, COORD_HI, -3 * 10 ** 13))
-                ops.append("%s %s %d %d %d %d" % (kind, ptxt, x, y, w, h))
-            count[path] += 1
-        return ("grp",) + tuple(ops)
+                self.ops.append("%s %s %d %d %d %d" % (kind, ptxt(path), x, y, w, h))
+            self.members.append((newp, kind == "grp"))
+            self.count[path] += 1
+            return newp
+
+        def assign(self, path, extreme=False):
+            """member.left / top / width / height = v on the existing member at `path`"""
+            f = rng.choice("ltwh")
+            v = coord() if f in "lt" else size()
+            if extreme and rng.random() < 0.2:
+                v = rng.choice((-5, COORD_HI, COORD_HI + 1, COORD_LO, COORD_LO - 1))
+            self.ops.append("set %s %s %d" % (ptxt(path), f, v))
+
+        def foreign(self, path):
+            """the frame another producer leaves on a group it moved / scaled as a whole: a:off / a:ext are where the group is
+            shown, a:chOff / a:chExt the coordinate space of its members (any numbers the schema allows)"""
+            chx, chy, chcx, chcy = coord(), coord(), size() + 1, size() + 1
+            r = rng.random()
+            if r < 0.35:       # translated
+                x, y, cx, cy = chx + coord(), chy + coord(), chcx, chcy
+            elif r < 0.7:      # scaled (and translated)
+                k = rng.choice((2, 3, 10))
+                x, y = coord(), coord()
+                cx, cy = (chcx // k, chcy // k) if rng.random() < 0.5 else (chcx * k, chcy * k)
+            else:
+                x, y, cx, cy = coord(), coord(), size(), size()
+            self.ops.append("xf %s %d %d %d %d %d %d %d %d" % (ptxt(path), x, y, cx, cy, chx, chy, chcx, chcy))
+
+        def case(self):
+            return ("grp",) + tuple(self.ops)
+
+    def pick_group(h):
+        # prefer deep groups so that depth 4 is reached
+        return max(rng.sample(h.groups, min(len(h.groups), 2)), key=len) if rng.random() < 0.6 else rng.choice(h.groups)
+
+    def history(nops, extreme, assign=0.0):
+        h = Hist()
+        follow = []            # receiving groups for the next additions: above or inside what was just assigned
+        for _ in range(nops):
+            nested = [m for m in h.members if len(m[0]) >= 2]
+            if follow and rng.random() < 0.75:
+                h.add(follow.pop(), rng.choice(KINDS), extreme)
+            elif h.members and rng.random() < assign:
+                path, is_grp = rng.choice(nested) if nested and rng.random() < 0.7 else rng.choice(h.members)
+                for _ in range(rng.choice((1, 1, 2, 4))):
+                    h.assign(path, extreme)
+                # then additions to a group that contains it (at any distance) and, for a group, inside it
+                above = [path[:k] for k in range(1, len(path))]
+                follow = [rng.choice(above)] if above else []
+                if is_grp and rng.random() < 0.4:
+                    follow.append(path)
+                if len(above) > 1 and rng.random() < 0.5:
+                    follow.append(rng.choice(above))
+            else:
+                h.add(pick_group(h), rng.choice(KINDS), extreme)
+        return h.case()
+
+    def foreign_start(extra, reopen=True):
+        """A deck as another producer leaves it: a nest of groups, some of them moved / scaled as a whole (frame different from
+        child frame), saved and opened; then an addition at every depth, innermost or outermost first, then a random tail."""
+        h = Hist()
+        path = h.add((), "grp")
+        chain = [path]
+        for _ in range(rng.randint(1, maxdepth - 1)):
+            for _ in range(rng.randint(0, 2)):
+                h.add(path, rng.choice(KINDS[:5]))
+            path = h.add(path, "grp")
+            chain.append(path)
+            if rng.random() < 0.3:
+                h.add(chain[-2], rng.choice(KINDS[:5]))
+        for _ in range(rng.randint(0, 2)):
+            h.add(path, rng.choice(KINDS[:5]))
+        side = [m[0] for m in h.members if m[1] and m[0] not in chain]
+        targets = [g for g in chain[1:] if rng.random() < 0.6] or [chain[-1]]
+        if rng.random() < 0.25:
+            targets.append(chain[0])
+        for g in targets + [g for g in side if rng.random() < 0.5]:
+            h.foreign(g)
+        if reopen:
+            h.ops.append("reopen")
+        # outermost first keeps the foreign frames below alive the longest; innermost first settles the whole chain at once
+        r = rng.random()
+        order = list(chain) if r < 0.6 else list(reversed(chain))
+        if r >= 0.8:
+            rng.shuffle(order)
+        for g in order:
+            h.add(g, rng.choice(KINDS))
+        for _ in range(extra):
+            r = rng.random()
+            if r < 0.25:
+                h.assign(rng.choice(h.members)[0])
+            elif r < 0.35:
+                h.foreign(rng.choice([m[0] for m in h.members if m[1]]))
+            else:
+                h.add(pick_group(h), rng.choice(KINDS))
+        return h.case()
 
     # a nest of depth 4 filled from the inside, every member kind
     chain = ["grp -", "grp 0", "grp 0.0", "grp 0.0.0"]
@@ -641,9 +913,18 @@ def gen_grp(tier, rng):
         chain.append("%s 0.0.0.0 %d %d %d %d" % (k, -100 * i, 50 * i, 10 + i, 20 + i))
     chain += ["sp 0.0.0 -7 -7 3 3", "tb 0.0 1000 1000 5 5", "cxn 0 9 9 -9 -9", "pic - 1 2 3 4"]
     cases.append(("grp",) + tuple(chain))
-    n = 900 if tier == "quick" else 5000
-    for i in range(n):
+    # the same nest, every group and every kind of member moved / resized through the API, an addition after each
+    for f, v in (("l", -50000), ("t", 70000), ("w", 3), ("h", 900000)):
+        for target in ("0.0", "0.0.0", "0.0.0.0", "0.0.0.0.%d" % "ltwh".index(f)):
+            for rec in ("0", "0.0", target if target.count(".") < 4 else "0.0.0.0"):
+                cases.append(("grp",) + tuple(chain) + ("set %s %s %d" % (target, f, v), "tb %s 11 12 13 14" % rec))
+    n_add, n_mix, n_for = (450, 450, 300) if tier == "quick" else (2500, 2500, 1500)
+    for i in range(n_add):
         cases.append(history(rng.randint(2, 22), extreme=(i % 10 == 9)))
+    for i in range(n_mix):
+        cases.append(history(rng.randint(4, 22), extreme=(i % 10 == 9), assign=0.3))
+    for i in range(n_for):
+        cases.append(foreign_start(rng.randint(0, 6), reopen=(i % 5 != 4)))
     return cases
 
 
@@ -711,12 +992,21 @@ def gen_malformed(tier, rng, valid):
     junk = ["", "+5", "1.5", "--1", "٣", "5 ", " 5", "1/0", "1/-2", "/", "1/2/3", "x", "L", "C C", "grp", "grp -", "sp",
             "sp - 1 2 3", "sp - 1 2 3 4 5", "sp  - 1 2 3 4", "grp 0..1", "grp .", "grp 99999999999999999999", "zz - 1 2 3 4",
             "i", "i 1 2", "f 1", "f 9007199254740992 0", "f 1 972", "f 1 -1075", "f 3 -1074", "M 1/1", "L 1/1 x", "bx", "-", "0",
-            "conn", "ff", "1e3", "0x10", "١"]
+            "conn", "ff", "1e3", "0x10", "١", "set", "set 0 l", "set 0 x 5", "set 0 l 1.5", "set 0 l 5 6", "set  0 l 5", "reopen 1",
+            "reopen ", "xf 0 1 2 3", "xf 0 0 0 -1 0 0 0 0 0", "xf 0 0 0 0 0 0 0 0 %d" % (COORD_HI + 1), "xf - 0 0 0 0 0 0 0 0",
+            "set - l 5", "set 0 W 5", "reopen", "set 0 l 5", "xf 0 1 2 3 4 5 6 7 8"]
     cases = [(), ("",), ("conn",), ("grp",), ("ff",), ("conn", 1, 2, 3), ("ff", "0/1", "0/1", "i 1", "i 1", 0),
              ("nope", 1, 2), ("conn", 1, 2, 3, 4, "bx"), ("conn", 1, 2, 3, 4, "bz", 3), ("conn", 1, 2, 3, 4, "bx", ""),
              ("grp", "grp 0"), ("grp", "sp 0 1 2 3 4"), ("grp", "grp -", "sp 0.0 1 2 3 4"), ("grp", "sp - 1 2 3 4", "sp 0 1 2 3 4"),
              ("grp", "grp -", "grp 1"), ("grp", "grp -", "ff 0 0 0 %d 5" % (COORD_HI + 1)),
-             ("grp", "grp 5", "ff - 0 0 %d 5" % (COORD_HI + 1)), ("grp", "ff 3 0 0 %d 5" % (COORD_HI + 1))]
+             ("grp", "grp 5", "ff - 0 0 %d 5" % (COORD_HI + 1)), ("grp", "ff 3 0 0 %d 5" % (COORD_HI + 1)),
+             ("grp", "set - l 5"), ("grp", "set 0 l 5"), ("grp", "sp - 1 2 3 4", "set 0.0 l 5"), ("grp", "sp - 1 2 3 4", "set 1 l 5"),
+             ("grp", "sp - 1 2 3 4", "set 0 w -1", "set 0 l 5"), ("grp", "sp - 1 2 3 4", "set 0 l %d" % (COORD_HI + 1)),
+             ("grp", "sp - 1 2 3 4", "xf 0 1 2 3 4 5 6 7 8"), ("grp", "grp -", "xf 0 1 2 3 4 5 6 7 8", "xf 0.0 1 2 3 4 5 6 7 8"),
+             ("grp", "grp -", "xf 0 0 0 %d 0 0 0 0 0" % (COORD_HI + 1)), ("grp", "grp -", "xf 0 %d 0 0 0 0 0 0 0" % (COORD_LO - 1)),
+             ("grp", "xf - 1 2 3 4 5 6 7 8"), ("grp", "reopen", "reopen", "grp -", "reopen", "set 0 h 0", "reopen", "sp 0 -1 -2 0 0"),
+             ("grp", "grp -", "xf 0 %d %d %d %d %d %d %d %d" % (COORD_LO, COORD_HI, COORD_HI, 0, COORD_HI, COORD_LO, 0, COORD_HI),
+              "reopen", "grp 0")]
     n = 600 if tier == "quick" else 6000
     for _ in range(n):
         c = list(rng.choice(valid))
@@ -750,6 +1040,13 @@ def canonical():
         ("grp", "grp -", "sp 0 100 100 50 50", "ff 0 10 10 500 500", "tb 0 120 120 5 5"),
         ("grp", "grp -", "grp 0", "grp 0.0", "grp 0.0.0", "sp 0.0.0.0 -100 50 10 20", "sp 0.0.0 7 -7 3 3",
          "sp 0 1000 1000 5 5", "sp - 1 2 3 4"),
+        # a nested group scaled and moved as a whole by another producer, re-opened, then an addition to the outer group
+        ("grp", "grp -", "sp 0 1500000 1200000 500000 500000", "grp 0", "sp 0.1 0 0 4000000 2000000",
+         "cxn 0.1 4000000 0 1000000 2000000", "xf 0.1 1000000 1000000 2000000 1000000 0 0 4000000 2000000", "reopen",
+         "tb 0 2500000 1500000 1000000 300000", "sp 0.1 -500000 100000 200000 200000"),
+        # a nested group and one of its members moved / resized through the public API, then additions above and inside
+        ("grp", "grp -", "sp 0 100 100 50 50", "grp 0", "sp 0.1 10 20 30 40", "set 0.1 l 500", "set 0.1 w 7",
+         "set 0.1.0 t -5", "tb 0 0 0 1 1", "tb 0.1 0 0 1 1"),
         ("ff", "5/2", "-3/1", "f 3602879701896397 -55", "i 3", -1000, 25, "L 10/1 -3/1", "L 10/1 40/1", "L -7/1 40/1", "C",
          "M 100/1 100/1", "L 10/1 40/1", "L 105/1 -20/1"),
     ]
@@ -758,7 +1055,11 @@ def canonical():
 def klass(case, out):
     if out == "badcase":
         return "malformed"
-    return {"conn": "connector-history", "grp": "group-history", "ff": "freeform", "ffk": "freeform-builder-used-midway"}[case[0]]
+    if case[0] == "grp":
+        ops = [str(x).split(" ")[0] for x in case[1:]]
+        return ("group-history-foreign-frames" if "xf" in ops else
+                "group-history-with-assignments" if "set" in ops else "group-history")
+    return {"conn": "connector-history", "ff": "freeform", "ffk": "freeform-builder-used-midway"}[case[0]]
 
 
 def nontrivial(case, out, obs):
@@ -769,7 +1070,7 @@ def nontrivial(case, out, obs):
         return any(o[0] == "set" and o[3] == "ok" and o[4][8:] != o[5][8:] for o in obs)
     if case[0] == "grp":
         # a member was added below the top-level group
-        return any(len(cmd[1]) >= 2 and t is not None for cmd, t in obs)
+        return any(len(o[0][1]) >= 2 and o[1] is not None and o[0][0] in ADD_KINDS for o in obs)
     if case[0] in ("ff", "ffk"):
         o = obs[0] if obs else {}
         if "hdr" not in o:
@@ -785,6 +1086,7 @@ def run(ck, tier, rng):
     cases = valid + gen_malformed(tier, rng, [c for c in valid if c[0] != "ffk"])
     impl_out = []
     depth_seen = 0
+    adds_after_assign = 0
     for c in cases:
         obs = []
         o = impl(c, obs)
@@ -793,11 +1095,16 @@ def run(ck, tier, rng):
         if "err:" in o:
             ck.dist["with-exception"] = ck.dist.get("with-exception", 0) + 1
         if c and c[0] == "grp" and o != "badcase":
-            depth_seen = max([depth_seen] + [len(cmd[1]) + (1 if cmd[0] == "grp" else 0) for cmd, t in obs if t is not None])
+            depth_seen = max([depth_seen] + [len(q[0][1]) + (1 if q[0][0] == "grp" else 0) for q in obs
+                                             if q[1] is not None and q[0][0] in ADD_KINDS])
+            adds_after_assign += count_settling_adds(obs)
         oracle(ck, plain(c), o, obs)
-    for c in (cases[5], cases[2000], valid[-1]) + tuple(c for c in valid if c[0] == "grp")[:2] + tuple(
+    grp_valid = [c for c in valid if c[0] == "grp"]
+    for c in (cases[5], cases[2000], valid[-1]) + tuple(grp_valid[:2]) + tuple(
+            [c for c in grp_valid if any(str(x).startswith("xf ") for x in c)][:2]) + tuple(
+            [c for c in grp_valid if any(str(x).startswith("set ") for x in c)][1:2]) + tuple(
             c for c in cases[len(valid):])[20:23]:
-        ck.sample([str(x) for x in c][:40], limit=10)
+        ck.sample([str(x) for x in c][:40], limit=12)
     concrete_before = len(ck.violations)
     oracle_concrete = len(ck.violations)
     diffs = 0
@@ -830,13 +1137,19 @@ def run(ck, tier, rng):
              "(0-14 assignments, both axes, steered to cross or meet the other end point, magnitudes 1 to 1e13) and histories at the "
              "edges of the ST_Coordinate ranges; groups: random histories of 2-22 additions of sp/textbox/picture/connector/empty "
              "group/freeform at random existing group paths, nesting to depth %d, negative and zero coordinates, a tenth with "
-             "out-of-range or negative sizes; freeform: random builders with 0-4 contours, tie / fractional / negative / repeated "
+             "out-of-range or negative sizes; the same interleaved with assignments of left/top/width/height to existing members "
+             "(nested groups preferred, 1-4 assignments in a row) each followed by additions to groups containing the member and "
+             "inside it; a depth-4 nest with every group and every kind of member moved or resized once followed by an addition "
+             "above / inside; start states of other producers: a nest of groups of which some (nested, top-level, side groups) get "
+             "a translated / scaled / arbitrary frame (a:off/a:ext != a:chOff/a:chExt) by lxml, four in five saved, schema-validated "
+             "and re-opened, then one addition at every depth (inside-out, outside-in or shuffled) and a random tail; freeform: random builders with 0-4 contours, tie / fractional / negative / repeated "
              "vertices, int and float scales (uniform and non-uniform, 4%% extreme), every sixth builder also used once part-way "
              "through the drawing (converted to a shape, or its offsets read) and then drawn on; malformed wire cases by mutation. "
              "non-trivial = a connector history in which a flip changed, a group history adding below a top-level group, a freeform "
              "with a fractional vertex, a move-to or a non-uniform scale" % (2 if tier == "quick" else 3, 4 if tier == "quick" else 5),
         trusted_base=TB, assumptions=ASSUME,
-        extra={"correspondence_diffs": diffs, "exhaustive": False, "max_group_depth_reached": depth_seen},
+        extra={"correspondence_diffs": diffs, "exhaustive": False, "max_group_depth_reached": depth_seen,
+               "additions_on_a_path_holding_a_moved_or_scaled_group": adds_after_assign},
     )
 
 
@@ -864,21 +1177,29 @@ def replay(rec):
 CLAIM = {
     "tech": "Coq proof over a Gallina model of the connector setters, group extent recalculation and the freeform builder (all histories, "
             "all tree depths, binary64 scale arithmetic) + extracted-model correspondence on real shapes + independent oracle",
-    "text": "20 theorems closed under the global context. Connector: add_connector reads back its two points; an end-point assignment "
+    "text": "33 theorems closed under the global context. Connector: add_connector reads back its two points; an end-point assignment "
             "that does not raise changes exactly that coordinate, keeps the other three readings and width/height >= 0, for every prior "
             "state; any history of assignments refines the abstract segment {bx,by,ex,ey} (fold over operations, cross-overs included) "
             "and no assignment raises within half the coordinate range. Groups: after any addition at any path of a shape tree of any "
             "depth every group on the path equals the least bounding box of its members (off, ext, chOff, chExt), everything off the "
             "path is unchanged, and recursive consistency is invariant over every history of additions of every kind from the empty "
-            "slide. Freeform: extents are the min/max of the rounded pen points, position = origin + scaled min, size = scaled "
+            "slide. Once frames can be assigned (left/top/width/height of an existing shape or GROUP through the API: one number of "
+            "a:off / a:ext, nothing recalculated; or a group frame of another producer with a:off/a:ext != a:chOff/a:chExt) the invariant "
+            "the code keeps is weaker and is proved for all trees and all histories of additions, assignments, foreign frames and "
+            "re-opens: a group counts in its parent with its own a:off/a:ext; an addition at path p gives every group on the path "
+            "off = chOff, ext = chExt = bounding box of its members' own frames and changes nothing off the path; an assignment at p can "
+            "spoil only p and its parent; hence every group outside the dirty set (assigned paths and their parents, minus the prefixes "
+            "of later additions) is clean (C17_group_history_assign), of which the additions-only theorem is the instance. Freeform: extents are the min/max of the rounded pen points, position = origin + scaled min, size = scaled "
             "(max-min) (exact for an int scale, within 1/2 + 2^-51 relative for a float scale, one exact half-even rounding when both "
             "operands fit 53 bits), every path point lies in [0,w]x[0,h]. The model is tied to connector.py, groupshape.py, shapetree.py "
-            "and freeform.py by ~14.5k (quick) / ~147k (thorough) histories run on real python-pptx shapes and on the extracted model "
+            "and freeform.py by ~15.6k (quick) / ~150k (thorough) histories run on real python-pptx shapes and on the extracted model "
             "(raw x/y/cx/cy/flip, chOff/chExt, a:path w/h and a:pt compared), plus a mutated malformed stream.",
     "note": "An assignment refused by ST_Coordinate / ST_PositiveCoordinate validation is not atomic (earlier attribute writes stay; "
             "proved as C17_conn_set_failure_*_refuted, reported as conn-set-raises-partial). Float scales are modelled as IEEE binary64 "
             "(fl53 transcribed, tied to CPython by correspondence only); nan/inf scales, non-integral connector values, add_chart / "
-            "add_ole_object inside groups and moving an existing member are outside; add_picture with a zero size is driven as an auto "
+            "add_ole_object inside groups, removal / re-ordering of members and rotated or flipped groups are outside; after an assignment "
+            "the groups in the dirty set are NOT the bounding box of their members until the next addition at or below them (that is what "
+            "the code does; the property speaks of additions); add_picture with a zero size is driven as an auto "
             "shape; after a ValueError inside a group addition the history stops (partial group state not modelled).",
     "ref": "6/C17",
 }
